@@ -46,7 +46,7 @@ META["C07"] = dict(
 )
 
 META["C01"] = dict(
-    text="Lean 4 invariant proof over an executable model of pubsub::Topic::poll, FanoutMany and StreamMap with scripted children: c01_exactly_once_in_order (for every history and every subscriber: got ++ buffered = accepted.drop regAt; evicted sinks got a prefix), c01_nothing_left_behind / c01_delivered_and_flushed (when a poll ends not blocked by a subscriber nothing accepted is undelivered or unflushed); induction over polls of any length, all scripts, all StreamMap starts; the hand model is tied to the code by replaying every scenario on the real Topic and comparing every child call",
+    text="Lean 4 invariant proof over an executable model of pubsub::Topic::poll, FanoutMany and StreamMap with scripted children: c01_exactly_once_in_order (for every history and every subscriber: got ++ buffered = accepted.drop regAt; evicted sinks got a prefix), c01_nothing_left_behind / c01_delivered_and_flushed (when a poll ends not blocked by a subscriber nothing accepted is undelivered or unflushed), c01_ended_publisher_fully_accepted / c01_subscriber_gets_all_of_an_ended_publisher (a publisher that has gone was forwarded completely); induction over polls of any length, all scripts, all StreamMap starts; the hand model is tied to the code by replaying every scenario on the real Topic and comparing every child call",
     design_ref="DESIGN.md section 6, C01",
     note="trusts the mpsc / StreamMap / waker contracts as stated, the correspondence harness, and the Lean kernel",
     technique="Lean 4 invariant proof over hand model + trace-level differential correspondence",
@@ -64,14 +64,14 @@ META["C09"] = dict(
     technique="Lean 4 termination-bound and quiescence proofs + wake-driven differential correspondence",
 )
 META["C16"] = dict(
-    text="Lean 4 theorems: after close a poll from any state finishes or is blocked on a pending subscriber sink (c16_pubsub_closed_outcome), with subscribers able to accept data it finishes within work(s)+1 iterations (c16_pubsub_finishes), and at completion everything taken from a publisher is handed over and flushed (c16_pubsub_finishes_flushed); the real Topic's channel is closed in many states and compared with the model",
+    text="Lean 4 theorems: after close a poll from any state finishes or is blocked on a pending subscriber sink (c16_pubsub_closed_outcome), with subscribers able to accept data it finishes within work(s)+1 iterations (c16_pubsub_finishes), and at completion everything taken from a publisher is handed over and flushed (c16_pubsub_finishes_flushed); the real Topic's channel is closed in many states and compared with the model; server level: a real server sent SIGINT in a process of its own with peers in eight states must return from listen()",
     design_ref="DESIGN.md section 6, C16",
     note="pub/sub half; request/reply half in the second part of Props/C16.lean when present",
     technique="Lean 4 proof over hand model + differential correspondence",
 )
 
 META["C02"] = dict(
-    text="Lean 4 invariant proofs over an executable model of reqrep::Topic::poll and sink::Router with scripted children: c02_requests_at_most_once_in_order (handed ++ buffered is a subsequence of taken; taken = handed + lost + buffered), c02_origin_tag (the cid header is the router's id whatever the requestor sent), c02_exactly_once_while_bound (no request is buffered while a replier is bound when the next one is taken), c02_replies_none_lost_each_to_its_requestor (routed ++ buffered = replies taken; every requestor's sink got exactly the replies routed to its id, in order), c02_reply_delivery, c02_bad_tag_discarded; for all histories, scripts, HashMap/StreamMap orders; tied to the code by replaying every scenario on the real Topic",
+    text="Lean 4 invariant proofs over an executable model of reqrep::Topic::poll and sink::Router with scripted children: c02_requests_at_most_once_in_order (handed ++ buffered is a subsequence of taken; taken = handed + lost + buffered), c02_origin_tag (the cid header is the router's id whatever the requestor sent), c02_exactly_once_while_bound (no request is buffered while a replier is bound when the next one is taken), c02_replies_none_lost_each_to_its_requestor (routed ++ buffered = replies taken; every requestor's sink got exactly the replies routed to its id, in order), c02_reply_delivery, c02_bad_tag_discarded, c02_honest_replies_reach_the_requestor_they_answer (a reply followed across a whole history: under a replier that echoes headers, what a requestor is handed answers a request taken from its own stream); for all histories, scripts, HashMap/StreamMap orders; tied to the code by replaying every scenario on the real Topic",
     design_ref="DESIGN.md section 6, C02",
     note="trusts the mpsc / StreamMap / HashMap / waker contracts as stated, the correspondence harness, the Lean kernel",
     technique="Lean 4 invariant proofs over hand model + trace-level differential correspondence",
@@ -90,7 +90,7 @@ META["C11"] = dict(
 )
 
 META["C03"] = dict(
-    text="Lean 4 theorem c03_fidelity_partial over an executable model of the publisher (batching by size and by an arbitrary clock oracle, send = poll_ready/start_send/poll_flush, finish) and the subscriber (unbatching, pop order): for every lossless codec, every self-inverting compressor or none, batching off or on with any size, any frame limit, every item list and every clock: whenever every send() and finish() returned Ok the subscriber yields exactly the items sent, in order, and finish() leaves nothing in the batch or the framed writer; the framed writer's size check is part of the model (a refused frame is an error result), which is what exposes the known finding c03_refused_batch_loses_accepted_members (a batch that outgrows the frame limit is drained before it is refused); tied to the code by running real clients through a real server over loopback QUIC for a grid of configurations and comparing what the subscriber yields",
+    text="Lean 4 theorem c03_fidelity_partial over an executable model of the publisher (batching by size and by an arbitrary clock oracle, send = poll_ready/start_send/poll_flush, finish) and the subscriber (unbatching, pop order): for every lossless codec, every self-inverting compressor or none, batching off or on with any size, any frame limit, every item list and every clock: whenever every send() and finish() returned Ok the subscriber yields exactly the items sent, in order, and finish() leaves nothing in the batch or the framed writer; the framed writer's size check is part of the model (a refused frame is an error result), which is what exposes the known finding c03_refused_batch_loses_accepted_members (a batch that outgrows the frame limit is drained before it is refused); c03_subscriber_state_machine_refines_outputs (poll_next driven call after call yields the list-level specification) and c03_end_to_end_through_the_router_partial (publisher model, router model of C01 and subscriber model composed); tied to the code by running real clients through a real server over loopback QUIC for a grid of configurations and comparing what the subscriber yields",
     design_ref="DESIGN.md section 6, C03",
     note="_partial: the compression libraries' round trip is a hypothesis (tested in C14); transport and server forwarding are trusted/proved elsewhere (C01); one known finding (known_findings.json: C03-oversize-batch-drops-accepted-items) is reported as KNOWN-FINDING on every run",
     technique="Lean 4 invariant proof over hand model + end-to-end differential correspondence over loopback QUIC",
@@ -104,21 +104,21 @@ META["C04"] = dict(
 )
 
 META["C17"] = dict(
-    text="Lean 4 theorems over a transition system of registration tasks, one global lock and per-topic bounded channels, parameterised by facts the translator reads from handle_stream (is an awaited send inside the lock guard's scope?): c17_lock_holder_never_blocked (in every reachable state the task holding the lock has an enabled step), c17_other_topic_progress (a registration for a topic with room completes in five of its own steps whatever any other topic's channel holds), lock invariant by induction; the stall itself is exhibited end to end (non-reading subscriber, over-full channel, probe on another topic)",
+    text="Lean 4 theorems over a transition system of registration tasks, one global lock and per-topic bounded channels, parameterised by facts the translator reads from handle_stream (is an awaited send inside the lock guard's scope?): c17_lock_holder_never_blocked (in every reachable state the task holding the lock has an enabled step), c17_other_topic_progress (a registration for a topic with room completes in five of its own steps whatever any other topic's channel holds), lock invariant by induction, c17_connection_keeps_accepting (the connection's accept loop hands every stream to a task of its own: regenerated); the stall itself is exhibited end to end (non-reading subscriber, over-full channel, probe on another topic)",
     design_ref="DESIGN.md section 6, C17",
     note="proof of the lock/queue discipline; QUIC flow control and tokio scheduling are exercised, not proved",
     technique="Lean 4 invariant proof over a task/lock model with source-extracted structure + end-to-end stall scenario",
 )
 
 META["C15"] = dict(
-    text="policy theorem in Lean 4 (c15_policy: with the configuration read from the source a connection is established iff the client's certificate chains to the server's CA and the server's to the client's CA for localhost; c15_untrusted_refused; c15_generated_set_works) over an abstract chain-validation relation, plus an exhaustive end-to-end run of all 8 client/server identity pairings with fresh keys; a permissive verifier or a disabled server check changes the regenerated facts (the obligation config_is_mutual stops compiling) and flips a pairing",
+    text="(as below, and) a model of the bundled certificate generator whose facts (SAN, key usages, signer, validity span, --no-expiry) are regenerated from tools/src/commands/gen_certs: c15_generator_set_works_both_ways for both settings of --no-expiry and any moment between 1980 and 4000; policy theorem in Lean 4 (c15_policy: with the configuration read from the source a connection is established iff the client's certificate chains to the server's CA and the server's to the client's CA for localhost; c15_untrusted_refused; c15_generated_set_works) over an abstract chain-validation relation, plus an exhaustive end-to-end run of all 8 client/server identity pairings with fresh keys; a permissive verifier or a disabled server check changes the regenerated facts (the obligation config_is_mutual stops compiling) and flips a pairing",
     design_ref="DESIGN.md section 6, C15",
     note="X.509, signatures and the TLS handshake are rustls/webpki/ring: trusted, exercised, not proved",
     technique="Lean 4 policy theorem over source-extracted configuration + exhaustive pairing run over real QUIC",
 )
 
 META["C12"] = dict(
-    text="Lean 4 theorems over the retry logic with its budget scope read from the source: c12_budget_per_outage (the outcome of every outage is that of a fresh budget), c12_survives_any_number_of_outages, c12_exhaustion_iff (too-many-retries exactly when all attempts of one outage fail), c12_fatal_immediate, c12_recovers, obligations budgets_per_outage / recoverable_classification on the regenerated facts; reconnection itself is exercised end to end by cutting real QUIC connections more often than the budget and checking traffic after each recovery for all four stream kinds",
+    text="Lean 4 theorems over the retry logic with its budget scope read from the source: c12_budget_per_outage (the outcome of every outage is that of a fresh budget), c12_survives_any_number_of_outages, c12_exhaustion_iff (too-many-retries exactly when all attempts of one outage fail), c12_fatal_immediate, c12_recovers, obligations budgets_per_outage / recoverable_classification on the regenerated facts; plus the pub/sub wrapper as a poll-level state machine with wake accounting (c12_no_lost_wakeup, c12_close_no_lost_wakeup, c12_exhaustion_is_reported under a wake-driven executor for every budget), the wrapper's wake sites regenerated from the source; reconnection itself is exercised end to end by cutting real QUIC connections more often than the budget and checking traffic after each recovery for all four stream kinds",
     design_ref="DESIGN.md section 6, C12",
     note="proof of the retry logic; reconnecting through quinn/TLS/the server is exercised, not proved",
     technique="Lean 4 proof over retry model with source-extracted budget scope + end-to-end fault injection",
